@@ -169,6 +169,11 @@ def tpl_size(size, v, k, ctor, _twin=False):
                 except ValueError:
                     if v >= 0:
                         code = 909
+            try:
+                SimpleTaskPool(plain_function, pool_size=3)
+                code = code or 901
+            except NotCoroutineFunction:
+                pass
             if _twin and not code and v < 0:
                 code = 77
             return code
